@@ -198,6 +198,8 @@ CHECKS = {
             {"run": "^TestC10ExpiryBounds$", "n": {"quick": 30000, "thorough": 200000}},
             # entries stored through the Failover frontend: the TTL of the final store and the stored expiry
             {"run": "^TestC06Failover$", "name": "C06Failover-for-C10", "n": {"quick": 5000, "thorough": 30000}},
+            # a value built through Failover stays fresh for the TTL it was built with (stable values, ObserveMutability)
+            {"run": "^TestC05Suppression$", "name": "C05Suppression-for-C10", "n": {"quick": 3000, "thorough": 20000}},
             {"fuzz": "^FuzzC10ExpiryBounds$", "fuzztime": {"thorough": "45s"}, "tiers": ("thorough",), "timeout": {"quick": 300, "thorough": 600}},
         ],
     },
